@@ -2,6 +2,8 @@
 # tools/confirm_seed.sh <seedout dir containing patch.diff, demo_test.go, meta.json> <pkg dir relative to pkg/go, e.g. graph>
 # Confirms in a scratch worktree of /repo HEAD: suite passes with the change, demo fails with it and passes without it.
 d="$1"; pkg="$2"
+# RACE=1: the demonstration needs the race detector (go test -race)
+RACEFLAG=""; [ -n "$RACE" ] && RACEFLAG="-race"
 export GOFLAGS=-mod=mod GOPROXY=off GOSUMDB=off GOTOOLCHAIN=local
 wt=$(mktemp -d /tmp/confirm-XXXXXX); rmdir "$wt"
 git -C /repo worktree add --detach "$wt" HEAD >/dev/null 2>&1 || exit 3
@@ -12,9 +14,9 @@ res=""
 ( cd "$wt" && git diff HEAD > "$d/patch.rebased.diff" )
 if (cd "$wt/pkg/go" && go build ./... && go test -vet=off -count=1 ./... >/tmp/$$.suite 2>&1); then res="suite=pass"; else res="suite=FAIL"; fi
 cp "$d/demo_test.go" "$wt/pkg/go/$pkg/zz_seed_demo_test.go"
-if (cd "$wt/pkg/go" && go test -vet=off -count=1 -run 'Seed|Demo|C[0-9][0-9](R2)?M' ./$pkg/ >/tmp/$$.demo1 2>&1); then res="$res demo_with_change=PASS(bad)"; else res="$res demo_with_change=fail"; fi
+if (cd "$wt/pkg/go" && go test $RACEFLAG -vet=off -count=1 -run 'Seed|Demo|C[0-9][0-9](R2)?M' ./$pkg/ >/tmp/$$.demo1 2>&1); then res="$res demo_with_change=PASS(bad)"; else res="$res demo_with_change=fail"; fi
 ( cd "$wt" && git checkout -q HEAD -- . && git reset -q )
-if (cd "$wt/pkg/go" && go test -vet=off -count=1 -run 'Seed|Demo|C[0-9][0-9](R2)?M' ./$pkg/ >/tmp/$$.demo2 2>&1); then res="$res demo_clean=pass"; else res="$res demo_clean=FAIL(bad)"; fi
+if (cd "$wt/pkg/go" && go test $RACEFLAG -vet=off -count=1 -run 'Seed|Demo|C[0-9][0-9](R2)?M' ./$pkg/ >/tmp/$$.demo2 2>&1); then res="$res demo_clean=pass"; else res="$res demo_clean=FAIL(bad)"; fi
 echo "$d: $res"
 rm -f /tmp/$$.suite /tmp/$$.demo1 /tmp/$$.demo2
 git -C /repo worktree remove --force "$wt"
